@@ -15,10 +15,16 @@ LEVEL = "proof"
 LEAN_IMPORTS = ["WM.Props.C04"]
 THEOREMS = ["WM.C04.mutex", "WM.C04.generation", "WM.C04.no_lost_update", "WM.C04.lock_released",
             "WM.C04.trace_is_script", "WM.C04.failed_acquire_inert", "WM.C04.script_runs_to_release",
-            "WM.C04.failed_init_disciplined", "WM.C04.finished_writer_not_holder"]
+            "WM.C04.failed_init_disciplined", "WM.C04.finished_writer_not_holder",
+            "WM.C04.commit_life_disciplined", "WM.C04.cancel_life_disciplined", "WM.C04.with_block_disciplined",
+            "WM.C04.with_block_releases", "WM.C04.leak_deadlocks", "WM.C04.never_commits",
+            "WM.C04.failing_with_block_never_commits"]
 PARTIAL = {}
 RULE = ("(a) storage traces of real writer lifetimes (SegmentWriter commit/cancel/failing with-block, AsyncWriter both "
-        "paths, BufferedWriter restarts, MpWriter in thorough) mapped to steps and checked by the Lean LockDiscipline; "
+        "paths, BufferedWriter restarts, MpWriter incl. a sub-writer process that dies, noticed by commit() / by the "
+        "with-block's __exit__ / by add_document()) mapped to steps and checked by the Lean LockDiscipline; with-block "
+        "lifetimes are also compared with the script of the Lean withBlock model; failing with-blocks around "
+        "AsyncWriter (holding the lock / deferred) and BufferedWriter must leave the index unlocked; "
         "(b) a second real writer attempted at every storage-event boundary of the first (File and RAM storage, "
         "timeout 0 and >0, watchdog against blocking): one case = (storage, canonical trace prefix); non-trivial = the "
         "first writer holds the lock at that boundary; (c) random sequential schedules of coarse writer steps "
@@ -266,7 +272,19 @@ def _history_job(job):
 # front-ends: AsyncWriter, BufferedWriter, MpWriter
 
 def frontend_job(job):
-    return _guard(_frontend_job, job, 30, {"seed": job["seed"], "kind": job["kind"], "ram": job["ram"]})
+    fallback = {"seed": job["seed"], "kind": job["kind"], "ram": job["ram"], "mode": job.get("mode")}
+    if job["kind"] != "mp-fail":
+        return _guard(_frontend_job, job, 30, fallback)
+    # the sub-writer processes of this job die with a traceback on purpose: keep it off the terminal
+    saved = os.dup(2)
+    null = os.open(os.devnull, os.O_WRONLY)
+    try:
+        os.dup2(null, 2)
+        return _guard(_frontend_job, job, 60, fallback)
+    finally:
+        os.dup2(saved, 2)
+        os.close(saved)
+        os.close(null)
 
 
 def _frontend_job(job):
@@ -381,6 +399,42 @@ def _frontend_job(job):
                     raise T.Boom()
             except T.Boom:
                 pass
+            probe("free")
+        elif kind == "frontend-with-exception":
+            # a failing with-block around the AsyncWriter (holding the lock, or deferred because another writer
+            # holds it) and around the BufferedWriter: afterwards the index is not locked by them
+            which = job.get("mode") or "async-direct"
+            out["mode"] = which
+            if which == "buffered":
+                tr.actor = "b"
+                try:
+                    with writing.BufferedWriter(ix, period=None, limit=3) as bw:
+                        probe("held")
+                        tr.actor = "b"
+                        raise T.Boom()
+                except T.Boom:
+                    pass
+            else:
+                w1 = None
+                if which == "async-deferred":
+                    tr.actor = "w"
+                    w1 = ix.writer()
+                    w1.add_document(**T.gen_doc(rng, 2))
+                tr.actor = "a"
+                try:
+                    with writing.AsyncWriter(ix, delay=0.01) as aw:
+                        aw.add_document(**T.gen_doc(rng, 1))
+                        if w1 is None:
+                            probe("held")
+                            tr.actor = "a"
+                        raise T.Boom()
+                except T.Boom:
+                    pass
+                if w1 is not None:
+                    tr.actor = "w"
+                    w1.commit(merge=False)
+                    expected.add("k2")
+                    time.sleep(0.05)
             probe("free")
         elif kind == "with-ok":
             tr.actor = "w"
@@ -501,6 +555,73 @@ def _frontend_job(job):
             tr.actor = "m"
             mw.commit()
             probe("free")
+        elif kind == "mp-fail":
+            # A sub-writer process dies: a document that passes the parent's field-name check raises inside the
+            # sub-process.  The failure surfaces in commit() (explicit, or the one a with-block runs in __exit__)
+            # or, once the bounded job queue is full, in add_document().  Whichever way: the caller gets an
+            # exception, nothing is committed, and the index is not left locked by the failed writer (which is
+            # still referenced here, as it is after `with ... as w`).
+            from whoosh.index import LockError
+            mode = job["mode"]
+            out["mode"] = mode
+            tr.actor = "m"
+
+            def bad(i):
+                d = T.gen_doc(rng, i)
+                d["n"] = u"not-a-number"
+                return d
+            raised = None
+            mw = None
+            try:
+                if mode == "commit":
+                    mw = ix.writer(procs=2, batchsize=1)
+                    mw.add_document(**bad(1))
+                    mw.add_document(**T.gen_doc(rng, 2))
+                    probe("held")
+                    tr.actor = "m"
+                    mw.commit()
+                elif mode == "with-commit":
+                    with ix.writer(procs=2, batchsize=rng.choice([1, 2])) as mw:
+                        mw.add_document(**T.gen_doc(rng, 2))
+                        mw.add_document(**bad(1))
+                        mw.add_document(**T.gen_doc(rng, 3))
+                        probe("held")
+                        tr.actor = "m"
+                else:
+                    with ix.writer(procs=2, batchsize=1) as mw:
+                        mw.add_document(**bad(1))
+                        mw.add_document(**bad(2))
+                        probe("held")
+                        tr.actor = "m"
+                        for i in range(3, 3 + 2 * 4 + 6):
+                            mw.add_document(**T.gen_doc(rng, i))
+            except Exception as e:  # noqa
+                raised = "%s: %s" % (T.errname(e), str(e)[:80])
+            out["raised"] = raised
+            if mode == "commit" and raised is not None:
+                # an explicit commit() that raised: a caller may be expected to cancel() the writer; only a
+                # writer that cannot be got rid of that way has dead-locked the index
+                r0, _secs, _th = try_second(ix, tr, 0.0)
+                if r0 == "LockError":
+                    out["needed_cancel"] = True
+                    tr.actor = "m"
+                    try:
+                        mw.cancel()
+                    except Exception:  # noqa
+                        pass
+            probe("free")
+            # a complete later lifetime on top of the failed one
+            tr.actor = "w"
+            try:
+                w3 = ix.writer(timeout=0.5, delay=0.02)
+            except LockError:
+                out["later"] = "LockError"
+            else:
+                w3.add_document(**T.gen_doc(rng, 40))
+                w3.commit()
+                expected.add("k40")
+                out["later"] = "ok"
+                out["want_gen"] = 2
         tr.enabled = False
         r = ix.reader()
         out["keys"] = sorted(sf["k"] for sf in r.all_stored_fields())
@@ -799,7 +920,22 @@ def _judge_frontends(ctx, results, lines, meta):
             ctx.violation("front-end-raises:" + r["kind"], case, "runs", r["fatal"], r["tb"])
             continue
         ctx.stat("frontend:" + r["kind"])
-        ctx.case(("frontend", r["kind"], case["storage"], tuple(r["expected"])), nontrivial=True)
+        if r["kind"] == "frontend-with-exception":
+            case["mode"] = r.get("mode")
+            ctx.stat("frontend:with-exception:%s" % r.get("mode"))
+        if r["kind"] == "mp-fail":
+            case["mode"] = r.get("mode")
+            ctx.stat("frontend:mp-fail:%s:%s" % (r.get("mode"), (r.get("raised") or "no-exception").split(":")[0]))
+            if r.get("needed_cancel"):
+                ctx.stat("frontend:mp-fail:explicit-commit-needed-cancel")
+            if r.get("raised") is None:
+                ctx.violation("MpWriter:dead-sub-writer-not-reported", case, "an exception", "commit returns",
+                              "a sub-writer process died and the writer reported nothing")
+            if r.get("later") == "LockError":
+                ctx.violation("index-dead-locked-after-failed-MpWriter", case, "a new writer opens and commits",
+                              "LockError", "after an MpWriter whose sub-writer process died has failed (and is still "
+                                           "referenced), no writer can be opened any more")
+        ctx.case(("frontend", r["kind"], r.get("mode"), case["storage"], tuple(r["expected"])), nontrivial=True)
         if r.get("after_fork"):
             ctx.violation("lock-not-released-while-a-forked-child-is-alive", case, "a new writer", r["after_fork"],
                           "a child forked while the writer was open inherited the lock descriptor; after commit()/"
@@ -808,8 +944,10 @@ def _judge_frontends(ctx, results, lines, meta):
             ctx.violation("waiting-writer-fails-after-the-holder-commits", case, "commits on top of the first writer",
                           r["waiter"], "a writer that waited for the lock (timeout > 0) could not commit after the "
                                        "holder committed")
-        if r.get("want_gen") is not None and r["gen"] != r["want_gen"] and r.get("waiter") == "ok":
-            ctx.violation("generation-step:waiting-writer", case, r["want_gen"], r["gen"])
+        if r.get("want_gen") is not None and r["gen"] != r["want_gen"] and r.get("waiter", "ok") == "ok":
+            ctx.violation("generation-step:" + ("waiting-writer" if r["kind"] == "waiting-writer" else r["kind"]), case,
+                          r["want_gen"], r["gen"],
+                          "the generation after the front-end's life is not the initial one plus the commits that succeeded")
         if r.get("commit_how"):
             ctx.stat("frontend:%s:commit-%s" % (r["kind"], r["commit_how"]))
             case["commit"] = r["commit_how"]
@@ -833,11 +971,41 @@ def _judge_frontends(ctx, results, lines, meta):
             for life in lifetimes(r["events"], actor):
                 lines.append("c04 discipline (%s)" % " ".join(compress(life)))
                 meta.append((case, actor, life))
+        # the with-block model (Lock.withBlock): the first lifetime of the front-end's own actor has the shape of
+        # the model's script for the way the block ended (runs of storage operations collapsed)
+        wb = {"with-ok": ("w", 0, 0), "with-exception": ("w", 1, 0)}.get(r["kind"])
+        if r["kind"] == "mp-fail" and r.get("mode") in ("with-commit", "with-add"):
+            wb = ("m", 1 if r["mode"] == "with-add" else 0, 1)
+        if r["kind"] == "frontend-with-exception" and r.get("mode") == "async-direct":
+            wb = ("a", 1, 0)      # AsyncWriter holding the lock: IndexWriter.__exit__ -> AsyncWriter.cancel -> writer.cancel
+        if wb:
+            lives = lifetimes(r["events"], wb[0])
+            if lives:
+                for n in (0, 1):
+                    for m in (0, 1):
+                        lines.append("c04 withblock 0 %d %d %d %d" % (n, m, wb[1], wb[2]))
+                        meta.append((case, "withblock", (lives[0], n, m)))
 
 
 def _judge_discipline(ctx, lines, meta):
     answers = ctx.driver.ask(lines)
+    shapes = {}
     for (case, actor, life), ans in zip(meta, answers):
+        if actor == "withblock":
+            real, n, m = life
+            key = (case["seed"], case.get("mode"))
+            ent = shapes.setdefault(key, {"case": case, "real": compress(real), "model": []})
+            ent["model"].append(compress(["a1" if t == "l" else t for t in ans.strip("()").split()]))
+    for ent in shapes.values():
+        ok = ent["real"] in ent["model"]
+        ctx.stat("withblock-shape:%s:%s" % (ent["case"]["kind"], "same" if ok else "differs"))
+        ctx.case(("withblock", ent["case"]["kind"], ent["case"].get("mode"), tuple(ent["real"])), nontrivial=len(ent["real"]) > 1)
+        if not ok:
+            ctx.divergence("withBlock (IndexWriter.__exit__ / MpWriter._subtasks_failed)",
+                           dict(ent["case"], life=ent["real"][:60]), ent["model"], ent["real"])
+    for (case, actor, life), ans in zip(meta, answers):
+        if actor == "withblock":
+            continue
         ctx.stat("discipline:%s:%s" % (actor, ans))
         ctx.case(("discipline", tuple(compress(life))), nontrivial=len(life) > 1)
         if ans != "1":
@@ -946,32 +1114,30 @@ def _canary(ctx, scratch):
     return blocked
 
 
-class _FailingCodec(object):
-    """Delegates to the default codec and raises at one chosen stage of SegmentWriter.__init__."""
+def _FailingCodec(stage):
+    """The default codec (a subclass of its class, so the whole public codec interface is there) that raises at
+    one chosen stage of SegmentWriter.__init__."""
+    from whoosh.codec import default_codec
+    base = type(default_codec())
 
-    def __init__(self, stage):
-        from whoosh.codec import default_codec
-        self._c = default_codec()
-        self._stage = stage
+    class FailingCodec(base):
+        def _hit(self, name):
+            if stage == name:
+                raise T.Boom()
 
-    def _hit(self, name):
-        if self._stage == name:
-            raise T.Boom()
+        def new_segment(self, storage, indexname):
+            self._hit("new_segment")
+            return base.new_segment(self, storage, indexname)
 
-    def new_segment(self, storage, indexname):
-        self._hit("new_segment")
-        return self._c.new_segment(storage, indexname)
+        def per_document_writer(self, storage, segment):
+            self._hit("per_document_writer")
+            return base.per_document_writer(self, storage, segment)
 
-    def per_document_writer(self, storage, segment):
-        self._hit("per_document_writer")
-        return self._c.per_document_writer(storage, segment)
+        def field_writer(self, storage, segment):
+            self._hit("field_writer")
+            return base.field_writer(self, storage, segment)
 
-    def field_writer(self, storage, segment):
-        self._hit("field_writer")
-        return self._c.field_writer(storage, segment)
-
-    def __getattr__(self, a):
-        return getattr(self._c, a)
+    return FailingCodec()
 
 
 def _failed_constructors(ctx, scratch):
@@ -1083,6 +1249,10 @@ def run(ctx):
             _main(ctx, scratch, "search", ctx.budget(16, 48), 4, 1)
 
 
+MPFAIL_MODES = ["with-commit", "commit", "with-add"]
+FWE_MODES = ["async-direct", "async-deferred", "buffered"]
+
+
 def _main(ctx, scratch, stream, njobs, ntxn, stride, seeds=None):
     # wall-clock bounds (boosted budgets / loaded machine => fewer cases, not a longer run)
     quick = ctx.tier == "quick"
@@ -1095,17 +1265,22 @@ def _main(ctx, scratch, stream, njobs, ntxn, stride, seeds=None):
     jobs = [j for j in jobs if j["ram"] not in BLOCKED_STORAGES]
     fjobs = []
     kinds = ["async-direct", "async-buffered", "async-late", "buffered", "with-exception", "with-ok",
-             "waiting-writer", "fork-child"]
-    if ctx.tier == "thorough":
-        kinds.append("mp")
+             "waiting-writer", "fork-child", "frontend-with-exception"]
+    # the multi-process writer: its jobs fork processes themselves and therefore run one after the other in
+    # this process, so the quick tier runs one healthy lifetime and one of each way a dead sub-writer surfaces
+    kinds += ["mp", "mp-fail"]
     if seeds is None:
         for rep in range(ctx.budget(4, 12)):
             for kind in kinds:
                 for ram in (False, True):
-                    if kind in ("mp", "fork-child") and ram:
+                    if kind in ("mp", "mp-fail", "fork-child") and ram:
+                        continue
+                    if ctx.tier == "quick" and (kind == "mp" and rep >= 1 or kind == "mp-fail" and rep >= len(MPFAIL_MODES)):
                         continue
                     fjobs.append({"seed": "%s:%s:%s:f:%s:%d:%d" % (ID, ctx.seed, stream, kind, rep, ram), "kind": kind,
-                                  "ram": ram, "scratch": scratch})
+                                  "ram": ram, "scratch": scratch,
+                                  "mode": (FWE_MODES[rep % len(FWE_MODES)] if kind == "frontend-with-exception"
+                                           else MPFAIL_MODES[rep % len(MPFAIL_MODES)])})
     sjobs = [] if seeds is not None else [
         {"seed": "%s:%s:%s:s:%d" % (ID, ctx.seed, stream, i), "ram": bool(i % 2), "scratch": scratch,
          "deadline": dl_sched}
@@ -1114,8 +1289,8 @@ def _main(ctx, scratch, stream, njobs, ntxn, stride, seeds=None):
     sjobs = [j for j in sjobs if j["ram"] not in BLOCKED_STORAGES]
     hres = ctx.pmap(history_job, jobs)
     # the MpWriter job forks worker processes itself: run those outside the pool
-    fres = ctx.pmap(frontend_job, [j for j in fjobs if j["kind"] != "mp"]) + \
-        [frontend_job(j) for j in fjobs if j["kind"] == "mp"]
+    fres = ctx.pmap(frontend_job, [j for j in fjobs if j["kind"] not in ("mp", "mp-fail")]) + \
+        [frontend_job(j) for j in fjobs if j["kind"] in ("mp", "mp-fail")]
     sres = ctx.pmap(schedule_job, sjobs, chunksize=4)
     ctx.stat("%s:transactions-done" % stream, sum(len(h["txns"]) for h in hres))
     cut = sum(1 for h in hres if h.get("stopped"))
@@ -1155,7 +1330,7 @@ def _replay_case(ctx, rec, scratch):
         _judge_schedules(ctx, [schedule_job({"seed": case["seed"], "ram": case.get("storage") == "ram", "scratch": scratch})])
     elif "kind" in case:
         lines, meta = [], []
-        _judge_frontends(ctx, [frontend_job({"seed": case["seed"], "kind": case["kind"],
+        _judge_frontends(ctx, [frontend_job({"seed": case["seed"], "kind": case["kind"], "mode": case.get("mode"),
                                              "ram": case.get("storage") == "ram", "scratch": scratch})], lines, meta)
         _judge_discipline(ctx, lines, meta)
     else:
